@@ -1,0 +1,39 @@
+//go:build verif
+
+package session
+
+import (
+	cid "github.com/ipfs/go-cid"
+)
+
+// VerifSessionWants exposes the session's want bookkeeping (sessionWants: the
+// toFetch queue, the live wants and their order) to the verification harness.
+// Add-only, compiled only with -tags verif; every method forwards to the real one.
+type VerifSessionWants struct{ sw sessionWants }
+
+func NewVerifSessionWants(broadcastLimit int) *VerifSessionWants {
+	return &VerifSessionWants{sw: newSessionWants(broadcastLimit)}
+}
+
+func (v *VerifSessionWants) BlocksRequested(ks []cid.Cid) { v.sw.BlocksRequested(ks) }
+func (v *VerifSessionWants) GetNextWants() []cid.Cid      { return v.sw.GetNextWants() }
+func (v *VerifSessionWants) WantsSent(ks []cid.Cid)       { v.sw.WantsSent(ks) }
+func (v *VerifSessionWants) PrepareBroadcast() []cid.Cid  { return v.sw.PrepareBroadcast() }
+func (v *VerifSessionWants) CancelPending(ks []cid.Cid)   { v.sw.CancelPending(ks) }
+func (v *VerifSessionWants) LiveWants() []cid.Cid         { return v.sw.LiveWants() }
+func (v *VerifSessionWants) RandomLiveWant() cid.Cid      { return v.sw.RandomLiveWant() }
+func (v *VerifSessionWants) HasLiveWants() bool           { return v.sw.HasLiveWants() }
+func (v *VerifSessionWants) IsWanted(c cid.Cid) bool      { return v.sw.isWanted(c) }
+func (v *VerifSessionWants) BlocksReceived(ks []cid.Cid) []cid.Cid {
+	wanted, _ := v.sw.BlocksReceived(ks)
+	return wanted
+}
+
+// Dump returns copies of the internal lists: the fetch queue's deque (stale
+// entries included), its set size, and the live-wants order slice.
+func (v *VerifSessionWants) Dump() (elems []cid.Cid, pending int, order []cid.Cid) {
+	for i := 0; i < v.sw.toFetch.elems.Len(); i++ {
+		elems = append(elems, v.sw.toFetch.elems.At(i))
+	}
+	return elems, v.sw.toFetch.len(), append([]cid.Cid(nil), v.sw.liveWantsOrder...)
+}
